@@ -19,6 +19,7 @@ type byzActor struct {
 	n    *Node
 	kind string
 	done map[string]bool
+	wh   *withhold // hostile peer: pending withhold-then-second-proposal script
 }
 
 func newByz(cl *Cluster, n *Node, kind string) (*byzActor, error) {
